@@ -34,9 +34,11 @@ def mk_project(rng):
     files = {}
     expected = set()
     placements = []
+    grp_name = rng.pick(["grp", "section", "menu_items", "stats", "g"])      # (names that are / are not themselves well-formed language tags)
     trees = {(ns, l): {"top": [("plain", "text"), ("hello", "hi {{ name }}")], "grp": [("leaf", "x")]} for ns in (namespaces or [None]) for l in locales}
     styles = {u: rng.below(3) for u in uses}
     mix_range = rng.chance(1, 6)
+    mixed = []
     for u in uses:
         ns = rng.pick(namespaces) if namespaces else None
         where = rng.pick(["default", "other-locale", "subkey", "via-fk", "both"])
@@ -72,15 +74,16 @@ def mk_project(rng):
                 elif u == "plural" and where == "default" and mix_range:
                     # the same key counted by a *range* in a later locale: the documented answer is the error RangeAndPluralsMix
                     tgt += [(key, proj.A([proj.A(["none", proj.U(0)]), proj.A(["some {{ count }}"])]))]
+                    mixed.append(key)
             if where == "via-fk" and l in tlocs:
                 path = ((ns + ":") if ns else "") + key
                 t["top"] += [(f"ref_{u}", f"$t({path})")]
         expected.add(FAMILY[u])
         placements.append((u, where, ns))
     for (ns, l), t in trees.items():
-        files[(ns, l)] = proj.O(rng.shuffle(t["top"]) + [("grp", proj.O(t["grp"]))])
+        files[(ns, l)] = proj.O(rng.shuffle(t["top"]) + [(grp_name, proj.O(t["grp"]))])
     return {"default": default, "locales": locales, "all_locales": locales, "namespaces": namespaces, "inherits": {}, "files": files,
-            "extra_cfg": False, "meta": {}, "icu": {"expected": sorted(expected), "placements": placements}}
+            "extra_cfg": False, "meta": {}, "icu": {"expected": sorted(expected), "placements": placements, "deliberate_conflicts": mixed}}
 
 
 def run(ctx):
@@ -106,7 +109,13 @@ def run(ctx):
         compare_model(ctx, "P/pipeline(C20)", p, po)
         if "parse_err" in r:
             ctx.count("rejected")
-            if "ok" in po["ci"]:
+            if "icu" in p and not p["icu"]["deliberate_conflicts"]:
+                # projects built from a placement plan are valid translations by construction (plain texts, interpolations, documented
+                # formatters, plurals with the forms one / other, references to existing keys): there is nothing to reject
+                report_violation(ctx, "icu:build-helper-rejects-valid-translations", {
+                    "case": project_text(p), "implementation": r["parse_err"], "plan": p.get("icu"),
+                    "expected_by_spec": "the data keys of the options these translations use (the project is valid by construction)", "harness": "build_h icu"})
+            elif "ok" in po["ci"]:
                 # the macro's loader accepts these translations (same parser, formatter features on): the build helper must too
                 report_violation(ctx, "icu:build-helper-rejects-valid-translations", {
                     "case": project_text(p), "implementation": r["parse_err"], "plan": p.get("icu"),
